@@ -110,6 +110,17 @@ def gen_c13(rnd, n, thorough=False):
             lines += ["create f %s m 2 x 3f000000" % fmt_layout(layout), "sync f", "drop f", "sessions f %d %d %d %d" % (w, r, readers, now)]
             tags = {'kind': kind, 'sessions': w * r}
         cases.append({'id': 'c13-%d' % c, 'lines': lines, 'tags': tags})
+    # two copy commands into ONE existing destination, under way at the same time (both sources are kept locked for
+    # a moment), each with something to write: no value of either source is lost
+    for j_ in range(2):
+        layout = [(1, 40), (5, 24)] if j_ == 0 else [(1, 400)]
+        ll = []
+        for nm, offs in (('s/a.wsp', range(3, 23, 2)), ('s/b.wsp', range(4, 24, 2)), ('d/x.wsp', [30, 31])):
+            pts = [("@-%d" % o, fbits(float(100 * (1 + ('ab'.find(nm[2]) if nm[0] == 's' else 5)) + o))) for o in offs]
+            ll += ["create %s %s m 2 x 00000000" % (nm, fmt_layout(layout)),
+                   "many %s 0 @ %d %s" % (nm, len(pts), " ".join("%s %016x" % tv for tv in pts)), "sync %s" % nm, "drop %s" % nm]
+        ll.append("clicopy2 s/a.wsp s/b.wsp d/x.wsp")
+        cases.append({'id': 'c13-copy2-%d' % j_, 'lines': ll, 'tags': {'kind': 'two_copies_one_destination'}})
     return cases
 
 
